@@ -731,9 +731,11 @@ func runServerClass(seed uint64, ncases int, R *res.Result) ([]serverCaseRec, []
 	}
 	snap := func() string {
 		h := s.GetRaftCluster().GetReplicationMode().GetReplicationStatusHTTP()
+		// what stores are told in PutStore / StoreHeartbeat responses (the zero DR state reads SYNC, id 0 there)
 		served := "None"
-		if h.Mode == "dr-auto-sync" {
-			served = optStatusOf(h.DrAutoSync.State, h.DrAutoSync.StateID)
+		if p := s.GetRaftCluster().GetReplicationMode().GetReplicationStatus(); p.GetMode() == pb.ReplicationMode_DR_AUTO_SYNC {
+			served = optStatus(&status{map[pb.DRAutoSyncState]string{pb.DRAutoSyncState_SYNC: "Sync", pb.DRAutoSyncState_ASYNC: "Async", pb.DRAutoSyncState_SYNC_RECOVER: "SyncRecover"}[p.GetDrAutoSync().GetState()],
+				p.GetDrAutoSync().GetStateId()})
 		}
 		var raw struct {
 			State   string `json:"state"`
@@ -797,9 +799,13 @@ func runServerClass(seed uint64, ncases int, R *res.Result) ([]serverCaseRec, []
 		r := master.Fork(uint64(k))
 		c := serverCaseRec{Via: "server-set-mode"}
 		c.Steps = append(c.Steps, call("majority", "", "")) // every case starts from majority
-		if k < len(faults) {
+		if k == 0 {                                         // first, on the fresh server: no DR state has ever existed
+			// other accepted spellings of the mode (config.NormalizeReplicationMode accepts case and '_')
+			c.Steps = append(c.Steps, call("dr_auto_sync", "zone", ""), call("dr-auto-sync", "zone", ""), call("Majority", "", ""), call("DR-AUTO-SYNC", "dc", ""),
+				call("dr-auto-sync", "zone", ""))
+		} else if k <= len(faults) {
 			// scripted: an online switch to dr-auto-sync and a label-key change, each with every single failing write
-			f := faults[k]
+			f := faults[k-1]
 			c.Steps = append(c.Steps, call("dr-auto-sync", "zone", f), call("dr-auto-sync", "zone", ""), call("dr-auto-sync", "dc", f), call("dr-auto-sync", "dc", ""),
 				call("majority", "", f), call("majority", "", ""))
 		} else {
@@ -808,7 +814,7 @@ func runServerClass(seed uint64, ncases int, R *res.Result) ([]serverCaseRec, []
 				if r.Pct(45) {
 					f = faults[r.Intn(len(faults))]
 				}
-				mode := []string{"majority", "dr-auto-sync", "dr-auto-sync", "bogus"}[r.Pick(25, 35, 35, 5)]
+				mode := []string{"majority", "dr-auto-sync", "dr-auto-sync", "bogus", "dr_auto_sync", "DR-AUTO-SYNC", "Majority"}[r.Pick(20, 25, 25, 5, 10, 8, 7)]
 				c.Steps = append(c.Steps, call(mode, []string{"zone", "dc", ""}[r.Intn(3)], f))
 			}
 		}
@@ -822,8 +828,105 @@ func runServerClass(seed uint64, ncases int, R *res.Result) ([]serverCaseRec, []
 	return cases, texts
 }
 
+// ---------- Server.ReplicateFileToAllMembers on a real cluster of three members, one of them down ----------
+type memberRec struct {
+	Name  string
+	Alive bool
+	Has   bool
+	File  string
+}
+type membersCaseRec struct {
+	Via     string
+	Offered string
+	Err     string
+	Members []memberRec // in member-list order
+}
+
+func runMembersClass(R *res.Result) ([]membersCaseRec, []string) {
+	xs, err := srv14.StartMembers(3)
+	if err != nil {
+		panic(err)
+	}
+	defer func() {
+		for _, x := range xs {
+			if x != nil {
+				x.Close()
+			}
+		}
+	}()
+	byName := map[string]*srv14.Srv{}
+	var leader *srv14.Srv
+	for _, x := range xs {
+		byName[x.Cfg.Name] = x
+		if x.S.GetMember().IsLeader() {
+			leader = x
+		}
+	}
+	list := func() []string {
+		resp, err := leader.S.GetMembers(context.Background(), nil)
+		if err != nil {
+			panic(err)
+		}
+		var names []string
+		for _, m := range resp.GetMembers() {
+			names = append(names, m.GetName())
+		}
+		return names
+	}
+	offer := func(content string, alive map[string]bool) membersCaseRec {
+		ctx, cancel := context.WithTimeout(context.Background(), 10*time.Second)
+		defer cancel()
+		c := membersCaseRec{Via: "members", Offered: content}
+		if err := leader.S.ReplicateFileToAllMembers(ctx, "DR_STATE", []byte(content)); err != nil {
+			c.Err = err.Error()
+		}
+		for _, n := range list() {
+			b, _ := os.ReadFile(path.Join(byName[n].Cfg.DataDir, "DR_STATE"))
+			c.Members = append(c.Members, memberRec{Name: n, Alive: alive[n], Has: string(b) == content, File: string(b)})
+		}
+		return c
+	}
+	names := list()
+	alive := map[string]bool{}
+	for _, n := range names {
+		alive[n] = true
+	}
+	var cases []membersCaseRec
+	// 1. everybody up
+	cases = append(cases, offer(`{"state":"sync","state_id":1}`, alive))
+	// 2. the first member of the list that is not the leader goes down: at least one live member follows it in the list
+	for _, n := range names {
+		if byName[n] != leader {
+			byName[n].S.Close()
+			alive[n] = false
+			R.Count("members:down-member-at-list-position-" + fmt.Sprint(indexOf(names, n)))
+			break
+		}
+	}
+	cases = append(cases, offer(`{"state":"async","state_id":2}`, alive))
+	var texts []string
+	for _, c := range cases {
+		es := make([]string, len(c.Members))
+		for i, m := range c.Members {
+			es[i] = fmt.Sprintf("(%s, %s, %s)", qs(m.Name), coqfmt.Bool(m.Alive), coqfmt.Bool(m.Has))
+		}
+		texts = append(texts, coqfmt.List(es))
+	}
+	return cases, texts
+}
+
+func indexOf(xs []string, x string) int {
+	for i, y := range xs {
+		if y == x {
+			return i
+		}
+	}
+	return -1
+}
+
 func main() {
 	seed := flag.Uint64("seed", 1, "")
+	members := flag.Bool("members", true, "offer a file through Server.ReplicateFileToAllMembers on a real cluster of three members, one of them down")
 	nserver := flag.Int("server", 8, "number of Server.SetReplicationModeConfig histories on a real server with a faulty storage")
 	n := flag.Int("n", 400, "number of generated cases")
 	out := flag.String("out", ".", "output directory")
@@ -953,6 +1056,25 @@ func main() {
 			panic(err)
 		}
 		R.CaseFiles = append(R.CaseFiles, sf.Files...)
+	}
+	if *replay == "" && *members {
+		for len(raw)%cf.PerFile != 0 {
+			raw = append(raw, nil)
+		}
+		mf := &coqfmt.CaseFile{Dir: *out, Prefix: "C19f", PerFile: cf.PerFile, Header: cf.Header, Type: "fcase",
+			Footer: "Definition M := Eval vm_compute in (@nil nat).\nDefinition D := Eval vm_compute in (@nil nat).\nDefinition V := Eval vm_compute in monitor_f_fails cases.\nPrint M. Print D. Print V.\n"}
+		cases, texts := runMembersClass(R)
+		for i, txt := range texts {
+			R.Case(txt, true)
+			if err := mf.Add(txt); err != nil {
+				panic(err)
+			}
+			raw = append(raw, cases[i])
+		}
+		if err := mf.Flush(); err != nil {
+			panic(err)
+		}
+		R.CaseFiles = append(R.CaseFiles, mf.Files...)
 	}
 	sort.Strings(R.Notes)
 	b, _ := json.Marshal(raw)
